@@ -443,6 +443,12 @@ package objects
 //@   ensures (node == nil || app == nil || alloc == nil) <==> r == nil
 //@   ensures r != nil ==> fresh(r) && r.alloc == alloc && r.app == app && r.node == node && r.allocKey == alloc.allocationKey && r.nodeID == (appBased ? node.NodeID : "") && r.appID == (appBased ? "" : app.ApplicationID)
 
+//@ func (r *reservation) GetObjects() (n *Node, a *Application, al *Allocation)
+//@   props C09
+//@   pure
+//@   ensures r != nil ==> n == r.node && a == r.app && al == r.alloc
+//@   ensures r == nil ==> n == nil && a == nil && al == nil
+
 //@ func (sn *Node) Reserve(app *Application, ask *Allocation) (err error)
 //@   props C09
 //@   mode nopanic=off
